@@ -6,7 +6,8 @@ import glob, json, os, re, subprocess, sys
 pid = sys.argv[1]
 prop = [json.loads(l) for l in open('/verif/properties.jsonl') if json.loads(l)['id'] == pid][0]
 anchors = prop['anchors']['files']
-env = dict(os.environ, VERIF_COVER="1", VERIF_KEEP="1")
+pkgs = sorted({"./" + os.path.dirname(a[len("tools/god/"):] if a.startswith("tools/god/") else a) for a in anchors})
+env = dict(os.environ, VERIF_COVER="1", VERIF_KEEP="1", VERIF_COVERPKG=",".join(pkgs))
 out = subprocess.run(["./check", pid], cwd="/verif", env=env, stdout=subprocess.PIPE, stderr=subprocess.STDOUT, text=True).stdout
 print(out.strip().split("\n")[-1])
 blocks = {}
